@@ -53,7 +53,7 @@ def mism(ctx, what, expected, got):
     count('mismatches')
     if len(mismatches) < 60:
         mismatches.append({'ctx': ctx, 'what': what, 'expected': expected,
-                           'got': got, 'impl': impl})
+                           'got': got, 'impl': impl, 'case_idx': childlib.CASE[0]})
 
 
 # ---------------------------------------------------------------- world
@@ -431,7 +431,7 @@ def run_pair(case):
 
 def main():
     mode = job['mode']
-    for case in job['cases']:
+    for childlib.CASE[0], case in enumerate(job['cases']):
         if mode == 'single':
             run_single(case)
         else:
